@@ -22,13 +22,27 @@ def run(tier):
                                                           "u1": attr("p1", "far", hasunk=True, unkf=("remove",)),
                                                           "u2": attr("p1", "p2", hasunk=True, unkf=(), copies=3)})
     lifefam = dict(peers=P, enabled=ev + ["Advance", "CleanTick"], cat={"s1": attr("p1", "far", life="short"),
-                                                                        "a2": attr("p1", "far", prev="p1", clockless=True, hop=(9, 1))})
+                                                                        "a2": attr("p1", "far", prev="p1", clockless=True, hop=(9, 1)),
+                                                                        "a3": attr("p1", "far", clockless=True, life="short")})
+    # one bundle of a clock-less source: the age block must grow by the whole time spent here on every attempt, also after an
+    # attempt that failed long after the reception (random deep behaviours; those with several attempts after Advance first)
+    agefam = dict(peers=P, enabled=["Receive", "PeerUp", "SetFail", "RetryTick", "Advance"], cat={"g1": attr("p1", "far", clockless=True, hop=(9, 1))})
+
+    def late_attempts(h):
+        acts = [st["act"] for st in h]
+        if "Advance" not in acts:
+            return 0
+        return sum(1 for st in h[acts.index("Advance") + 1:] if st["exp"]["sends"])
     plans = []
     for a in (["epidemic", "binary_spray", "dtlsr"] if quick else ALGOS):
         plans.append(dict(name="hop", fam=hopfam, algo=a, budget=3, steps=4 if quick else 5, cap=110 if quick else None, mc=not quick))
         plans.append(dict(name="blocks", fam=blkfam, algo=a, budget=3, steps=4 if quick else 5, sim=(20, 12) if quick else (400, 16), cap=130 if quick else None, mc=not quick or a == "epidemic"))
     for a in (["epidemic"] if quick else ALGOS):
-        plans.append(dict(name="lifetime", fam=lifefam, algo=a, budget=3, steps=4 if quick else 5, cap=60 if quick else 600, mc=not quick))
+        plans.append(dict(name="lifetime", fam=lifefam, algo=a, budget=3, steps=5 if quick else 6, cap=70 if quick else 700, mc=not quick,
+                          prefer=lambda h: sum(len(st["exp"]["sends"]) for st in h) + 5 * [st["act"] for st in h].count("Advance")))
+    for a in (["epidemic"] if quick else ["epidemic", "spray", "prophet"]):
+        plans.append(dict(name="age-retry", fam=agefam, algo=a, budget=3, steps=3, sim=(1500, 8) if quick else (20000, 10), cap=24 if quick else 300,
+                          mc=False, prefer=late_attempts))
     total, st = run_families(chk, "C06", plans, tier)
     own_violations(chk, "C06")
     if st.get("expected_sends", 0) < 50:
